@@ -3,8 +3,11 @@ package atlab
 import (
 	"context"
 	"database/sql"
+	"encoding/hex"
+	"encoding/json"
 	"fmt"
 	"sort"
+	"strings"
 	"sync"
 	"time"
 
@@ -50,12 +53,12 @@ func Open(cfg tc.Config, host string) *Lab {
 	registerOnce.Do(func() {
 		sqlpkg.VerifRegisterDrivers("seata-at-memsql", "seata-xa-memsql", memsql.Driver{})
 	})
-	db, err := sql.Open("seata-at-memsql", l.Srv.DSN("testdb"))
+	db, err := sql.Open("seata-at-memsql", l.DSN())
 	if err != nil {
 		panic(err)
 	}
 	l.DB = db
-	bare, err := sql.Open("memsql", l.Srv.DSN("testdb"))
+	bare, err := sql.Open("memsql", l.DSN())
 	if err != nil {
 		panic(err)
 	}
@@ -66,6 +69,13 @@ func Open(cfg tc.Config, host string) *Lab {
 		}
 	}
 	return l
+}
+
+// DSN is the data source name of the lab database. parseTime=true: without it go-sql-driver/mysql hands
+// DATETIME columns over as []byte, which the proxy's image scan (sql.NullTime) cannot take - taken as a
+// deployment requirement of the client, not as a finding (leniency rule, DESIGN.md 4.1).
+func (l *Lab) DSN() string {
+	return l.Srv.DSNWithParams("testdb", "multiStatements=true&interpolateParams=true&parseTime=true")
 }
 
 func waitFor(f func() bool, d time.Duration) bool {
@@ -164,6 +174,145 @@ func (l *Lab) Idle() bool {
 		}
 	}
 	return true
+}
+
+// ExecSQL runs one concrete statement as a branch (autocommit or explicit transaction).
+func (l *Lab) ExecSQL(ctx context.Context, q string, args []interface{}, explicit bool) error {
+	if !explicit {
+		_, err := l.DB.ExecContext(ctx, q, args...)
+		return err
+	}
+	tx, err := l.DB.BeginTx(ctx, nil)
+	if err != nil {
+		return err
+	}
+	if _, err := tx.ExecContext(ctx, q, args...); err != nil {
+		_ = tx.Rollback()
+		return err
+	}
+	return tx.Commit()
+}
+
+// Image is one row image of an undo log in abstract form.
+type Image struct {
+	Key    int    `json:"key"`
+	Kind   string `json:"kind"` // ins | upd | del
+	Before Row    `json:"before"`
+	After  Row    `json:"after"`
+	Stmt   int    `json:"stmt"`
+}
+
+// UndoImages decodes the undo-log row of (xid, bid) written with the json serializer (no compression)
+// into abstract images: statement order, rows by ascending key. u = -3 marks "column not in the image".
+func (l *Lab) UndoImages(s *Schema, xid string, bid int64) (imgs []Image, ok bool, why string) {
+	for _, r := range l.Srv.Snapshot("undo_log")["undo_log"] {
+		if fmt.Sprint(r["xid"]) != xid || fmt.Sprint(r["branch_id"]) != fmt.Sprint(bid) {
+			continue
+		}
+		raw := fmt.Sprint(r["rollback_info"])
+		if !strings.HasPrefix(raw, "0x") {
+			return nil, false, "rollback_info is not binary"
+		}
+		b, err := hex.DecodeString(raw[2:])
+		if err != nil {
+			return nil, false, err.Error()
+		}
+		var log struct {
+			SqlUndoLogs []struct {
+				SqlType     string `json:"sqlType"`
+				BeforeImage *jimg  `json:"beforeImage"`
+				AfterImage  *jimg  `json:"afterImage"`
+			} `json:"sqlUndoLogs"`
+		}
+		if err := json.Unmarshal(b, &log); err != nil {
+			return nil, false, "undo log is not json: " + err.Error()
+		}
+		for si, ul := range log.SqlUndoLogs {
+			before := ul.BeforeImage.rows(s, l.NKeys)
+			after := ul.AfterImage.rows(s, l.NKeys)
+			keys := map[int]bool{}
+			for k := range before {
+				keys[k] = true
+			}
+			for k := range after {
+				keys[k] = true
+			}
+			ks := make([]int, 0, len(keys))
+			for k := range keys {
+				ks = append(ks, k)
+			}
+			sort.Ints(ks)
+			for _, k := range ks {
+				im := Image{Key: k, Before: Absent, After: Absent, Stmt: si + 1}
+				if v, ok := before[k]; ok {
+					im.Before = v
+				}
+				if v, ok := after[k]; ok {
+					im.After = v
+				}
+				switch {
+				case im.Before == Absent && im.After != Absent:
+					im.Kind = "ins"
+				case im.Before != Absent && im.After == Absent:
+					im.Kind = "del"
+				default:
+					im.Kind = "upd"
+				}
+				imgs = append(imgs, im)
+			}
+		}
+		return imgs, true, ""
+	}
+	return nil, false, "no undo log row"
+}
+
+type jimg struct {
+	Rows []struct {
+		Fields []struct {
+			Name  string      `json:"name"`
+			Value interface{} `json:"value"`
+		} `json:"fields"`
+	} `json:"rows"`
+}
+
+func (j *jimg) rows(s *Schema, nkeys int) map[int]Row {
+	out := map[int]Row{}
+	if j == nil {
+		return out
+	}
+	for _, r := range j.Rows {
+		m := map[string]interface{}{}
+		for _, f := range r.Fields {
+			v := f.Value
+			if fl, ok := v.(float64); ok {
+				v = int64(fl)
+			}
+			m[strings.ToLower(f.Name)] = v
+		}
+		k := s.KeyOf(m, nkeys)
+		if k == 0 {
+			out[-1] = Row{-2, -2} // a row that is none of the keys
+			continue
+		}
+		row := Row{-2, -2}
+		if w1, ok := m["w1"].(int64); ok {
+			w := int(w1 - 10)
+			want := s.W2(w)
+			got, has := m["w2"]
+			if has && ((want == nil && got == nil) || (want != nil && got == want)) {
+				row.W = w
+			}
+		}
+		if u1, has := m["u1"]; has {
+			if u, ok := u1.(int64); ok {
+				row.U = int(u - 7)
+			}
+		} else {
+			row.U = -3
+		}
+		out[k] = row
+	}
+	return out
 }
 
 // RunBranch executes the statements of one branch through the proxy inside the global transaction
